@@ -31,7 +31,7 @@ META = {
                   "independent_fraction). ParametrizedEvolution kernel covered only for time-independent Hamiltonians (expm reference, ODE tolerance 1e-5) "
                   "in the thorough tier; sparse-only operator kernel (has_sparse_matrix and no matrix) is not reachable with built-in operations; tensorflow not installed.",
     "shards": {"quick": 3, "thorough": 12},
-    "budget_s": {"quick": 45, "thorough": 130},
+    "budget_s": {"quick": 110, "thorough": 240},
     "min_evals": {"quick": 1500, "thorough": 30000},
     "deciding": ["dq.result", "dq.kernel"],
     "rule": "case = (circuit spec, device wires, interface, path); distinct = fingerprint of the full spec; non-trivial = the reference final "
@@ -269,9 +269,10 @@ def reference(qp, spec, order):
     return ref, float(np.mean(fr)), bool(nontriv or B)
 
 
-def mtol(m, ref):
+def mtol(m, ref, base=None):
     scale = max(1.0, float(np.max(np.abs(ref))) if np.size(ref) else 1.0)
-    return (1e-8 if m["m"] in ("vn", "mi") else TOL) * scale
+    base = TOL if base is None else base
+    return max(1e-8 if m["m"] in ("vn", "mi") else 0.0, base) * scale
 
 
 def mkind(m):
@@ -281,7 +282,7 @@ def mkind(m):
     return k
 
 
-def compare(ctx, mon, res, ref, spec, info, what, retag=None):
+def compare(ctx, mon, res, ref, spec, info, what, retag=None, tol=None):
     """retag(default_mech) -> mech : lazily applied mechanism classifier (tagging only)."""
     from pv.ref import c26_ref as R
     retag = retag or (lambda m: m)
@@ -312,7 +313,7 @@ def compare(ctx, mon, res, ref, spec, info, what, retag=None):
             bad = True
             continue
         err = float(np.max(np.abs(got - exp))) if got.size else 0.0
-        if not err <= mtol(m, exp):
+        if not err <= mtol(m, exp, tol):
             ctx.violation(mon, f"{what}: measurement {k} ({mkind(m)}) differs from the reference by {err:.3e}", case=info,
                           mech=retag(f"result:{mkind(m)}"), observed=got, expected=exp)
             bad = True
